@@ -56,6 +56,18 @@ class C01(Check):
         ints = [v for v in longs if B.INT_MIN <= v <= B.INT_MAX]
         nested = {"type": "array", "items": ["null", {"type": "map", "values": "long"}]}
         nested_i = {"type": "array", "items": ["string", {"type": "map", "values": "int"}]}
+        # deep (but within the stated bound of 30) recursive data: linked list and a tree through arrays/maps
+        ll = {"type": "record", "name": "ns.LL", "fields": [{"name": "v", "type": "long"}, {"name": "next", "type": ["null", "LL"], "default": None}]}
+        tree = {"type": "record", "name": "Tree", "fields": [{"name": "kids", "type": {"type": "array", "items": "Tree"}}, {"name": "m", "type": {"type": "map", "values": ["null", "Tree"]}}]}
+        node = None
+        for i in range(28):
+            node = {"v": i, "next": node} if node is not None else {"v": i}
+        t = {"kids": [], "m": {}}
+        for i in range(13):
+            t = {"kids": [t, {"kids": [], "m": {"x": None}}], "m": {"k": t if i % 2 else None}}
+        for parsed in (False, True):
+            yield {"schema": ll, "data": [node, {"v": -1}], "parsed": parsed}
+            yield {"schema": tree, "data": [t], "parsed": parsed}
         for parsed in (False, True):
             yield {"schema": "long", "data": longs, "parsed": parsed}
             yield {"schema": "int", "data": ints, "parsed": parsed}
